@@ -1,4 +1,6 @@
 """C15 - parsing is total: Ok or Err, never a panic or hang (runtime crate)."""
+import re
+
 from . import mir, census
 from .mir import Sim, callee, fmt
 
@@ -316,6 +318,46 @@ def r3_regex(F, res):
         res.ok(rid, "regex-validated", None, "%d regex API calls in the compiler" % calls)
 
 
+def r4_error_cells(ctx, res):
+    """Backs the triage rows of the `Action::Error` arms in both drivers ("cannot happen": the generated tables never hand out
+    Error): the arrays accessor must read the Error-padded cell as a prefix, the functions layout must have no Error in
+    its arms. Same generated-source facts as C08, only this clause."""
+    from . import gen
+    rid = res.rule("C15-R4", "generated actions(state, token) never returns Action::Error (arrays: take_while(!Error) prefix reader; "
+                   "functions: no Error in any arm) - backs the `cannot happen` arms of the LR and GLR drivers", floor=40)
+    for fset in ("gen-functions", "gen-arrays"):
+        for g in gen.load_set(ctx.dir(fset)):
+            if g.parse_error:
+                continue
+            im = g.impl("ParserDefinition<")
+            name = (g.name or "").replace("target:", "")
+            if not im:
+                continue
+            fns = {x.get("ident"): x for x in im["items"]}
+            a = fns.get("actions")
+            if not a:
+                continue
+            body = gen.flat(a["body"])
+            # arrays: actions[state][token] (a padded cell); functions: actions[state](token) (a function per state)
+            layout = "arrays" if re.search(r"\]\s*\[", body) else "functions"
+            if layout == "arrays":
+                okc = "take_while" in body and "Action :: Error" in body
+                if okc:
+                    res.ok(rid, "%s/%s" % (fset, name), g.entry.get("parser_file_rel"), "prefix reader")
+                else:
+                    res.violation(rid, "arrays-reader", "%s [arrays layout]: actions() hands out the Error-padded cell as it is: "
+                                  "the GLR driver panics (`Cannot happen!`) and the LR driver stops on the padding" % name,
+                                  g.entry.get("parser_file_rel"))
+            else:
+                # the per-state functions are separate items: any `Error` outside a catch-all `_ => vec![]`
+                txt = " ".join(gen.flat(it.get("body", [])) for it in g.items if it["kind"] == "fn" and str(it.get("ident", "")).startswith("action_"))
+                if "Action :: Error" in txt or "Error ," in txt.replace("Action :: Error", ""):
+                    res.violation(rid, "functions-error-arm", "%s [functions layout]: an action function returns Action::Error" % name,
+                                  g.entry.get("parser_file_rel"))
+                else:
+                    res.ok(rid, "%s/%s" % (fset, name), g.entry.get("parser_file_rel"), "no Error in the action functions")
+
+
 def run(ctx, res):
     F = ctx.facts("core")
     rid = res.rule("C15-R1", "may-panic census of the runtime crate: every panic-capable construct reachable from the public "
@@ -327,6 +369,7 @@ def run(ctx, res):
     r2_guards(F, res)
     r2d_boundaries(F, res)
     r3_regex(F, res)
+    r4_error_cells(ctx, res)
     from . import controls
     controls.run(ctx, res, "C15")
     res.extra.update({"obligations": stats["sites"], "discharged": stats["sites"] - stats["new"] - stats["finding"],
